@@ -62,6 +62,7 @@ type FuncContract struct {
 	Loops    map[int]*LoopSpec
 	Binds    map[string]string // parameter -> global it is required to point to
 	HavocGlobals []string      // globals treated as arbitrary when verifying this function
+	SliceBind map[string]string // parameter -> global slice variable: an additional instance is verified in which the parameter IS that slice
 	Inline   []string          // callees executed from their bodies (not by contract) inside this function
 	Cuts     map[int]*CutSpec
 	NamedCuts []*CutSpec
@@ -313,7 +314,7 @@ func ParseContracts(file, pkg string, configOK func(pred string) bool) (*PkgCont
 			if m[1] != "" {
 				key = strings.TrimSuffix(m[1], ".") + "." + m[2]
 			}
-			cur = &FuncContract{Pkg: pkg, Key: key, Params: fieldsComma(m[3]), Loops: map[int]*LoopSpec{}, Cuts: map[int]*CutSpec{}, Binds: map[string]string{}, Line: line}
+			cur = &FuncContract{Pkg: pkg, Key: key, Params: fieldsComma(m[3]), Loops: map[int]*LoopSpec{}, Cuts: map[int]*CutSpec{}, Binds: map[string]string{}, SliceBind: map[string]string{}, Line: line}
 			if _, dup := pc.Funcs[key]; dup {
 				return nil, fmt.Errorf("%s: duplicate contract for %s", line, key)
 			}
@@ -382,6 +383,12 @@ func ParseContracts(file, pkg string, configOK func(pred string) bool) (*PkgCont
 			cur.Binds[strings.TrimSpace(parts[0])] = strings.TrimPrefix(strings.TrimSpace(parts[1]), "&")
 		case kw == "inline":
 			cur.Inline = append(cur.Inline, fieldsComma(rest)...)
+		case kw == "slicebind":
+			parts := strings.SplitN(rest, "=", 2)
+			if len(parts) != 2 {
+				return nil, fmt.Errorf("%s: bad slicebind clause", line)
+			}
+			cur.SliceBind[strings.TrimSpace(parts[0])] = strings.TrimSpace(parts[1])
 		case kw == "havoc-global":
 			cur.HavocGlobals = append(cur.HavocGlobals, fieldsComma(rest)...)
 		case kw == "assumed":
